@@ -32,7 +32,15 @@ def main():
         extra = ('\nThis is round %s: other people have already tried the most obvious change for this property. Prefer a different code site or '
                  'mechanism than the first one that comes to mind — look through ALL the anchors and the code around them before choosing.\n' % rnd)
         ms = d['anchors'].get('mechanism', [])
-        if rnd.isdigit() and int(rnd) >= 12:
+        if rnd.isdigit() and int(rnd) >= 13:
+            extra += ('Earlier rounds covered single-site slips, state kept between calls, extreme sizes, unusual argument forms and pairs of '
+                      'cooperating edits. This time write the change the way a well-meaning contributor would: a performance FAST PATH that '
+                      'skips work when a cheap test says the result cannot change (and the test is slightly too generous), a SIMPLIFICATION '
+                      'that replaces a loop by a slice / regular expression / built-in whose behaviour differs at an edge (empty match, '
+                      'overlapping matches, greedy vs lazy, bytes vs int iteration, negative index, step), a small NEW FEATURE or tolerance '
+                      '("also accept ...") whose default path changes an existing behaviour, or a "fix" of something that was not broken. '
+                      'The commit should read as an improvement to a reviewer.\n')
+        elif rnd.isdigit() and int(rnd) >= 12:
             extra += ('Earlier rounds covered single-site slips, state kept between calls, extreme sizes and unusual argument forms. This time make '
                       'a change of TWO cooperating code sites that each look fine alone (e.g. a producer and a consumer changed consistently for '
                       'the common case but inconsistently for a rare one; a constant changed in one module and its twin left alone; an encoder '
